@@ -59,7 +59,11 @@ func reflectMap(v interface{}) (reflect.Value, bool) {
 		return rv, false
 	}
 	rt := rv.Type()
-	for rv.Kind() == reflect.Interface || rv.Kind() == reflect.Pointer {
+	for n := 0; rv.Kind() == reflect.Interface || rv.Kind() == reflect.Pointer; n++ {
+		if n > maxLevel {
+			// a pointer / interface chain that leads back to itself never ends
+			return rv, false
+		}
 		rv = rv.Elem()
 		if isNil(rv) {
 			return rv, false
